@@ -331,6 +331,15 @@ func listRoOps() []roOp {
 		{"String", func(s interface{}, _ at.List, _ at.Object) interface{} { return L(s).String() }},
 		{"Clone", func(s interface{}, _ at.List, _ at.Object) interface{} { return L(s).Clone() }},
 		{"Equals(own)", func(s interface{}, own at.List, _ at.Object) interface{} { return L(s).Equals(own) }},
+		{"Equals(same length, differs at the end)", func(s interface{}, _ at.List, _ at.Object) interface{} {
+			vals := L(s).Slice()
+			if len(vals) == 0 {
+				return L(s).Equals(at.NewList())
+			}
+			vals[len(vals)-1] = "differs"
+			return L(s).Equals(at.NewList(vals...))
+		}},
+		{"Equals(equal copy)", func(s interface{}, _ at.List, _ at.Object) interface{} { return L(s).Equals(at.NewList(L(s).Slice()...)) }},
 		{"SubList(0,0)", func(s interface{}, _ at.List, _ at.Object) interface{} { return L(s).SubList(0, 0) }},
 		{"Concat(own)", func(s interface{}, own at.List, _ at.Object) interface{} { return L(s).Concat(own) }},
 		{"Filter(always)", func(s interface{}, _ at.List, _ at.Object) interface{} {
@@ -366,6 +375,20 @@ func objRoOps() []roOp {
 		}},
 		{"Clone", func(s interface{}, _ at.List, _ at.Object) interface{} { return O(s).Clone() }},
 		{"Equals(own)", func(s interface{}, _ at.List, own at.Object) interface{} { return O(s).Equals(own) }},
+		{"Equals(same keys, one value differs)", func(s interface{}, _ at.List, _ at.Object) interface{} {
+			o := at.NewObject()
+			last := ""
+			O(s).ForEach(func(k string, v interface{}) {
+				o.Set(k, v)
+				if k > last {
+					last = k
+				}
+			})
+			if last != "" {
+				o.Set(last, "differs")
+			}
+			return O(s).Equals(o)
+		}},
 		{"Keys(sorted)", func(s interface{}, _ at.List, _ at.Object) interface{} {
 			ks := O(s).Keys().StringSlice()
 			sort.Strings(ks)
@@ -631,7 +654,7 @@ func fineScenarios(bound int) []scenario {
 	}
 	for si, sh := range shapes {
 		ops := listRoOps()
-		sel := pick(ops, "String", "FormatString(2)", "Clone", "Equals(own)", "Concat(own)", "SubList(0,0)", "Slice", "NativeSlice", "GetTF(#0)", "Filter(always)", "Map(identity)", "Sum+IntSlice")
+		sel := pick(ops, "String", "FormatString(2)", "Clone", "Equals(own)", "Equals(same length, differs at the end)", "Equals(equal copy)", "Concat(own)", "SubList(0,0)", "Slice", "NativeSlice", "GetTF(#0)", "Filter(always)", "Map(identity)", "Sum+IntSlice")
 		if si == 1 {
 			ops = objRoOps()
 			sel = pick(ops, "String(decoded)", "Clone", "Equals(own)", "Keys(sorted)", "Dict", "NativeDict", "Merge(own)", "Pluck(a)", "GetTF(.b#0)", "Map(identity)")
